@@ -1,5 +1,519 @@
 (* GENERATED on every run by harness/C12.py translate() with translate/pycoro2coq.py from
-   /tmp/mt-1972-23675/psiaudio/pipeline.py - do not edit.  One pass of each coroutine from (yield) to (yield). *)
-From Coq Require Import ZArith String.
-Definition translator_gap : Z :=
-  "name that is not a defined variable of a known type  line 1227 : `mode`"%string.
+   /tmp/mt-7249-30076/psiaudio/pipeline.py - do not edit.  One pass of each coroutine from (yield) to (yield). *)
+From PV Require Import Stages.Model.
+Open Scope Z_scope.
+
+(* vocabulary of translate/pycoro2coq.py (fixed text) *)
+Definition py_mod (a b : Z) : option Z := if b =? 0 then None else Some (a mod b).        (* ZeroDivisionError *)
+Definition py_floordiv (a b : Z) : option Z := if b =? 0 then None else Some (a / b).
+(* truth of len(x): samples of a 1-D array, channels (never 0) of a 2-D one *)
+Definition py_len_true {A} (x : blk A) : bool := if two x then true else negb (zlen (dat x) =? 0).
+(* PipelineData(arr, fs, s0, channel, metadata) *)
+Definition new_pd {A} (x : blk A) (fsd s0 : Z) (ch : option (list Z)) (md : Z) : blk A :=
+  Blk (dat x) (two x) (Some (An s0 fsd ch md)).
+(* np.full(shape of `like` with last axis 1, fill_value=v): a plain array *)
+Definition np_full1 {A} (like : blk A) (v : A) : blk A := Blk [v] (two like) None.
+(* np.diff(x) * x.fs for annotated x: x[..., 1:] - x[..., :-1], annotations of x[..., 1:]; `* fs` is part of sub *)
+Definition np_diff_fs {A} (sub : A -> A -> A) (x : blk A) : blk A :=
+  let hi := getitem (Some 1) None None x in
+  Blk (match dat x with [] => [] | p :: t => diff_from sub p t end) (two hi) (an hi).
+(* signal.lfilter(b, a, y, zi=zf, axis=-1): (plain array of the filtered samples, final state) *)
+Definition lfilter {F A} (filt : F -> A -> F * A) (zf : F) (y : blk A) : blk A * F :=
+  let '(z, yf) := mapAccum filt zf (dat y) in (Blk yf (two y) None, z).
+(* second batch: rms, event_rate, transform, mc_reference, iirfilter *)
+Definition set_ch {A} (c : option (list Z)) (b : blk A) : blk A :=
+  Blk (dat b) (two b) (option_map (fun a => An (a_s0 a) (a_fsd a) c (a_md a)) (an b)).
+Definition py_last {X} (l : list X) : option X := match rev l with [] => None | x :: _ => Some x end.  (* l[-1]: IndexError *)
+Definition sum_len {A} (l : list (blk A)) : Z := fold_right (fun d acc => zlen (dat d) + acc) 0 l.
+(* np.mean(d ** 2, axis=-1) ** 0.5 for d reshaped to [.., n_blocks, n] (integer samples squared in double): one value per
+   block (abstract agg); PipelineData.mean divides fs and the float s0 by n (s0div); a reshaped 1-D array carries the
+   channel list [None] * n_blocks *)
+Definition rms_value {A O} (agg : list A -> O) (s0div : Z -> Z) (n n_blocks : Z) (d : blk A) : blk O :=
+  Blk (map agg (chop (Z.to_nat n_blocks) (Z.to_nat n) (dat d))) (two d)
+      (option_map (fun a => An (s0div (a_s0 a)) (a_fsd a * n)
+                               (if two d then a_ch a else Some (repeat 0 (Z.to_nat n_blocks))) (a_md a)) (an d)).
+(* function(data) for an elementwise function / matrix @ data (one column of all channels = one sample) *)
+Definition map_blk {A O} (g : A -> O) (x : blk A) : blk O := Blk (map g (dat x)) (two x) (an x).
+
+(* ---------------- pipeline.discard (line 1007) ---------------- *)
+Definition discard_gen_init {A : Type} (discard_samples : Z) : Z :=
+  let to_discard := discard_samples in
+  to_discard.
+
+Definition discard_gen_step {A : Type} (discard_samples : Z) (st : Z) (chunk : blk A)
+  : option (Z * list (blk A)) :=
+  let to_discard := st in
+  let outs : list (blk A) := [] in
+  let samples := chunk in
+  if (to_discard =? 0) then
+    let outs := outs ++ [samples] in
+    Some (to_discard, outs)
+  else
+    if (zlen (dat samples) <=? to_discard) then
+      let to_discard := to_discard - zlen (dat samples) in
+      Some (to_discard, outs)
+    else
+      if (zlen (dat samples) >? to_discard) then
+        let samples := getitem (Some to_discard) None None samples in
+        let to_discard := 0 in
+        let outs := outs ++ [samples] in
+        Some (to_discard, outs)
+      else
+        Some (to_discard, outs).
+
+(* ---------------- pipeline.blocked (line 607) ---------------- *)
+Definition blocked_gen_init {A : Type} (block_size : Z) : list (blk A) * Z :=
+  let data := [] in
+  let n := 0 in
+  (data, n).
+
+Fixpoint blocked_gen_loop1 {A : Type} (fuel : nat) (block_size : Z) (merged : blk A) (outs : list (blk A))
+  : option (blk A * list (blk A)) :=
+  if (zlen (dat merged) >=? block_size) then
+    match fuel with
+    | O => None (* the loop does not terminate *)
+    | S fuel =>
+      let block := getitem None (Some block_size) None merged in
+      let outs := outs ++ [block] in
+      let merged := getitem (Some block_size) None None merged in
+      blocked_gen_loop1 fuel block_size (merged) (outs)
+    end
+  else Some (merged, outs).
+
+Definition blocked_gen_step {A : Type} (block_size : Z) (st : list (blk A) * Z) (chunk : blk A)
+  : option ((list (blk A) * Z) * list (blk A)) :=
+  let '(data, n) := st in
+  let outs : list (blk A) := [] in
+  let d := chunk in
+  let n := n + zlen (dat d) in
+  let data := data ++ [d] in
+  if (n >=? block_size) then
+    match concat_list data with
+    | None => None
+    | Some merged =>
+      match blocked_gen_loop1 (length (dat merged)) block_size merged outs with
+      | None => None
+      | Some (merged, outs) =>
+        let data := [merged] in
+        let n := zlen (dat merged) in
+        Some ((data, n), outs)
+      end
+    end
+  else
+    Some ((data, n), outs).
+
+(* ---------------- pipeline.downsample (line 933) ---------------- *)
+Definition downsample_gen_init {A : Type} (q : Z) : option (blk A) * option Z :=
+  let y_remainder : option (blk A) := None in
+  let s0 : option Z := None in
+  (y_remainder, s0).
+
+Definition downsample_gen_step {A : Type} (q : Z) (st : option (blk A) * option Z) (chunk : blk A)
+  : option ((option (blk A) * option Z) * list (blk A)) :=
+  let '(y_remainder, s0) := st in
+  let outs : list (blk A) := [] in
+  match (
+    match y_remainder with
+    | None =>
+      let y := chunk in
+      Some y
+    | Some y_remainder =>
+      let y_new := chunk in
+      match concat2 y_remainder y_new with
+      | None => None
+      | Some y =>
+        Some y
+      end
+    end
+  ) with
+  | None => None
+  | Some y =>
+    let s0 := (
+      match s0 with
+      | None =>
+        let s0 := s0_of y in
+        s0
+      | Some s0 =>
+        s0
+      end
+    ) in
+    match py_mod (zlen (dat y)) (q) with
+    | None => None
+    | Some remainder =>
+      let '(y, y_remainder) := (
+        if negb (remainder =? 0) then
+          let y_remainder := getitem (Some (- remainder)) None None y in
+          let y := getitem None (Some (- remainder)) None y in
+          (y, Some y_remainder)
+        else
+          let y_remainder : option (blk A) := None in
+          (y, y_remainder)
+      ) in
+      let result := getitem None None (Some q) y in
+      let result := (
+        match an result with
+        | Some result_an =>
+          let result := set_s0 s0 result in
+          result
+        | None =>
+          result
+        end
+      ) in
+      let s0 := s0 + zlen (dat result) in
+      if py_len_true result then
+        let outs := outs ++ [result] in
+        Some ((y_remainder, Some s0), outs)
+      else
+        Some ((y_remainder, Some s0), outs)
+    end
+  end.
+
+(* ---------------- pipeline.derivative (line 1249) ---------------- *)
+Definition derivative_gen_body {A : Type} (sub : A -> A -> A) (init : A) (initial_state : blk A) (new_samples : blk A)
+  : option (option (blk A) * list (blk A)) :=
+  let outs : list (blk A) := [] in
+  match concat2 initial_state new_samples with
+  | None => None
+  | Some samples =>
+    match an samples with
+    | None => None (* AttributeError: .fs *)
+    | Some _ =>
+      let outs := outs ++ [np_diff_fs sub samples] in
+      let initial_state := getitem (Some (-1)) None None new_samples in
+      Some (Some initial_state, outs)
+    end
+  end.
+
+Definition derivative_gen_step {A : Type} (sub : A -> A -> A) (init : A) (st : option (blk A)) (chunk : blk A)
+  : option (option (blk A) * list (blk A)) :=
+  match st with
+  | None =>
+    let new_samples := chunk in
+    let initial_state := np_full1 new_samples init in
+    match an new_samples with
+    | Some new_samples_an =>
+      let initial_state := new_pd initial_state (a_fsd new_samples_an) (a_s0 new_samples_an - 1) (a_ch new_samples_an) (a_md new_samples_an) in
+      derivative_gen_body sub init (initial_state) new_samples
+    | None =>
+      derivative_gen_body sub init (initial_state) new_samples
+    end
+  | Some initial_state =>
+    derivative_gen_body sub init initial_state chunk
+  end.
+
+(* ---------------- pipeline.decimate (line 962) ---------------- *)
+Definition decimate_gen_body {F A : Type} (filt : F -> A -> F * A) (zf0 : F) (q : Z) (s0 : Z) (zf : F) (y_remainder : option (blk A)) (y : blk A)
+  : option (option (Z * F * option (blk A)) * list (blk A)) :=
+  let outs : list (blk A) := [] in
+  if (zlen (dat y) =? 0) then
+    Some (Some (s0, zf, y_remainder), outs)
+  else
+    let '(y_filt, zf) := lfilter filt zf y in
+    let y_filt := (
+      match an y with
+      | Some y_an =>
+        let y_filt := new_pd y_filt (a_fsd y_an) (a_s0 y_an) (a_ch y_an) (a_md y_an) in
+        y_filt
+      | None =>
+        y_filt
+      end
+    ) in
+    match (
+      match y_remainder with
+      | Some y_remainder =>
+        match concat2 y_remainder y_filt with
+        | None => None
+        | Some y_filt =>
+          Some y_filt
+        end
+      | None =>
+        Some y_filt
+      end
+    ) with
+    | None => None
+    | Some y_filt =>
+      match py_mod (zlen (dat y_filt)) (q) with
+      | None => None
+      | Some remainder =>
+        let '(y_filt, y_remainder) := (
+          if negb (remainder =? 0) then
+            let y_remainder := getitem (Some (- remainder)) None None y_filt in
+            let y_filt := getitem None (Some (- remainder)) None y_filt in
+            (y_filt, Some y_remainder)
+          else
+            let y_remainder : option (blk A) := None in
+            (y_filt, y_remainder)
+        ) in
+        let result := getitem None None (Some q) y_filt in
+        let result := (
+          match an result with
+          | Some result_an =>
+            let result := set_s0 s0 result in
+            result
+          | None =>
+            result
+          end
+        ) in
+        let s0 := s0 + zlen (dat result) in
+        if (zlen (dat result) >? 0) then
+          let outs := outs ++ [result] in
+          Some (Some (s0, zf, y_remainder), outs)
+        else
+          Some (Some (s0, zf, y_remainder), outs)
+      end
+    end.
+
+Definition decimate_gen_step {F A : Type} (filt : F -> A -> F * A) (zf0 : F) (q : Z) (st : option (Z * F * option (blk A))) (chunk : blk A)
+  : option (option (Z * F * option (blk A)) * list (blk A)) :=
+  match st with
+  | None =>
+    let y := chunk in
+    let s0 := s0_of y in
+    let zf := zf0 in
+    let y_remainder : option (blk A) := None in
+    decimate_gen_body filt zf0 q (s0) (zf) (y_remainder) y
+  | Some (s0, zf, y_remainder) =>
+    decimate_gen_body filt zf0 q s0 zf y_remainder chunk
+  end.
+
+(* ---------------- pipeline.rms (line 498) ---------------- *)
+Definition rms_gen_body {A O : Type} (agg : list A -> O) (s0div : Z -> Z) (s0add : Z -> Z -> Z) (n : Z) (data : list (blk A)) (samples : Z) (out_s0 : option Z)
+  : option (option (list (blk A) * Z * option Z) * list (blk O)) :=
+  let outs : list (blk O) := [] in
+  if (samples >=? n) then
+    match concat_list data with
+    | None => None
+    | Some data =>
+      match py_floordiv (zlen (dat data)) (n) with
+      | None => None
+      | Some n_blocks =>
+        let n_samples := (n_blocks * n) in
+        let d := getitem None (Some n_samples) None data in
+        let result := rms_value agg s0div n n_blocks d in
+        match (
+          match an result with
+          | Some result_an =>
+            match an data with
+            | None => None (* AttributeError *)
+            | Some data_an =>
+              let result := set_ch (a_ch data_an) result in
+              let result_an := An (a_s0 result_an) (a_fsd result_an) (a_ch data_an) (a_md result_an) in
+              let out_s0 := (
+                match out_s0 with
+                | None =>
+                  let out_s0 := a_s0 result_an in
+                  out_s0
+                | Some out_s0 =>
+                  out_s0
+                end
+              ) in
+              let result := set_s0 out_s0 result in
+              let out_s0 := s0add out_s0 n_blocks in
+              Some (Some out_s0, result)
+            end
+          | None =>
+            Some (out_s0, result)
+          end
+        ) with
+        | None => None
+        | Some (out_s0, result) =>
+          let outs := outs ++ [result] in
+          let d := getitem (Some n_samples) None None data in
+          let samples := zlen (dat d) in
+          let data := [d] in
+          Some (Some (data, samples, out_s0), outs)
+        end
+      end
+    end
+  else
+    Some (Some (data, samples, out_s0), outs).
+
+Definition rms_gen_step {A O : Type} (agg : list A -> O) (s0div : Z -> Z) (s0add : Z -> Z -> Z) (n : Z) (st : option (list (blk A) * Z * option Z)) (chunk : blk A)
+  : option (option (list (blk A) * Z * option Z) * list (blk O)) :=
+  match st with
+  | None =>
+    let data := [chunk] in
+    let samples := sum_len data in
+    let out_s0 : option Z := None in
+    rms_gen_body agg s0div s0add n (data) (samples) (out_s0)
+  | Some (data, samples, out_s0) =>
+    let data := data ++ [chunk] in
+    match py_last data with
+    | None => None (* IndexError *)
+    | Some data_last =>
+      let samples := samples + zlen (dat data_last) in
+      rms_gen_body agg s0div s0add n (data) (samples) (out_s0)
+    end
+  end.
+
+(* ---------------- pipeline.event_rate (line 1282) ---------------- *)
+Fixpoint event_rate_gen_loop1  (fuel : nat) (block_size : Z) (block_step : Z) (blocks : list events) (evts : events)
+  : option (list events * events) :=
+  if ((e_hi evts - e_lo evts) >? block_size) then
+    match fuel with
+    | O => None (* the loop does not terminate *)
+    | S fuel =>
+      match get_range evts (e_lo evts) (e_lo evts + block_size) with
+      | None => None
+      | Some block =>
+        let blocks := blocks ++ [block] in
+        let start := (e_lo evts + block_step) in
+        let evts := trim_left evts start in
+        event_rate_gen_loop1 fuel block_size block_step (blocks) (evts)
+      end
+    end
+  else Some (blocks, evts).
+
+Definition event_rate_gen_body  (block_size : Z) (block_step : Z) (evts : events) (s0 : Z)
+  : option (option (events * Z) * list rblk) :=
+  let outs : list rblk := [] in
+  let blocks := [] in
+  match event_rate_gen_loop1 (Z.to_nat (e_hi evts - e_lo evts)) block_size block_step blocks evts with
+  | None => None
+  | Some (blocks, evts) =>
+    match blocks with
+    | _ :: _ =>
+      let rate := map (fun b => zlen (evs b)) blocks in
+      let data := Rb rate s0 block_step in
+      let outs := outs ++ [data] in
+      let s0 := s0 + 2 * zlen rate in
+      Some (Some (evts, s0), outs)
+    | [] =>
+      Some (Some (evts, s0), outs)
+    end
+  end.
+
+Definition event_rate_gen_step  (block_size : Z) (block_step : Z) (st : option (events * Z)) (chunk : events)
+  : option (option (events * Z) * list rblk) :=
+  match st with
+  | None =>
+    let evts := chunk in
+    let s0 := 2 * e_lo evts + block_size in
+    event_rate_gen_body block_size block_step (evts) (s0)
+  | Some (evts, s0) =>
+    match combine_events evts chunk with
+    | None => None
+    | Some evts =>
+      event_rate_gen_body block_size block_step (evts) (s0)
+    end
+  end.
+
+(* ---------------- pipeline.transform (line 485) ---------------- *)
+Definition transform_gen_init {A O : Type} (g : A -> O) : unit :=
+  tt.
+
+Definition transform_gen_step {A O : Type} (g : A -> O) (st : unit) (chunk : blk A)
+  : option (unit * list (blk O)) :=
+  let _ := st in
+  let outs : list (blk O) := [] in
+  let data := chunk in
+  let outs := outs ++ [map_blk g data] in
+  Some (tt, outs).
+
+(* ---------------- pipeline.mc_reference (line 1341) ---------------- *)
+Definition mc_reference_gen_init {A O : Type} (g : A -> O) : unit :=
+  tt.
+
+Definition mc_reference_gen_step {A O : Type} (g : A -> O) (st : unit) (chunk : blk A)
+  : option (unit * list (blk O)) :=
+  let _ := st in
+  let outs : list (blk O) := [] in
+  let data := map_blk g chunk in
+  let outs := outs ++ [data] in
+  Some (tt, outs).
+
+(* ---------------- pipeline.iirfilter (line 580) ---------------- *)
+Definition iirfilter_gen_body {F A : Type} (filt : F -> A -> F * A) (finit : A -> F) (zo : F) (y : blk A)
+  : option (option (F) * list (blk A)) :=
+  let outs : list (blk A) := [] in
+  if (zlen (dat y) =? 0) then
+    Some (Some zo, outs)
+  else
+    let '(y_filt, zo) := lfilter filt zo y in
+    let y_filt := (
+      match an y with
+      | Some y_an =>
+        let y_filt := new_pd y_filt (a_fsd y_an) (a_s0 y_an) (a_ch y_an) (a_md y_an) in
+        y_filt
+      | None =>
+        y_filt
+      end
+    ) in
+    let outs := outs ++ [y_filt] in
+    Some (Some zo, outs).
+
+Definition iirfilter_gen_step {F A : Type} (filt : F -> A -> F * A) (finit : A -> F) (st : option (F)) (chunk : blk A)
+  : option (option (F) * list (blk A)) :=
+  match st with
+  | None =>
+    let y := chunk in
+    if (zlen (dat y) =? 0) then
+      Some (None, []) (* keeps waiting *)
+    else
+      match dat y with
+      | [] => None (* no first sample to scale the state with *)
+      | y_first :: _ =>
+        let zo := finit y_first in
+        iirfilter_gen_body filt finit (zo) y
+      end
+  | Some zo =>
+    iirfilter_gen_body filt finit zo chunk
+  end.
+
+(* ---------------- pipeline.auto_th (line 1177) ---------------- *)
+Definition auto_th_gen_body {A T O : Type} (thr : list A -> T) (ge : T -> A -> O) (baseline_samples : Z) (auto_th : T) (data : blk A)
+  : option ((option (blk A) + T) * list (blk O)) :=
+  let outs : list (blk O) := [] in
+  let result := map_blk (ge auto_th) data in
+  let outs := outs ++ [result] in
+  Some (inr auto_th, outs).
+
+Definition auto_th_gen_spool {A T O : Type} (thr : list A -> T) (ge : T -> A -> O) (baseline_samples : Z) (data : blk A)
+  : option ((option (blk A) + T) * list (blk O)) :=
+  if (zlen (dat data) <? baseline_samples) then
+    Some (inl (Some data), []) (* keeps spooling *)
+  else
+    let auto_th := thr (py_slice None (Some baseline_samples) (dat data)) in
+    auto_th_gen_body thr ge baseline_samples (auto_th) data.
+
+Definition auto_th_gen_step {A T O : Type} (thr : list A -> T) (ge : T -> A -> O) (baseline_samples : Z) (st : option (blk A) + T) (chunk : blk A)
+  : option ((option (blk A) + T) * list (blk O)) :=
+  match st with
+  | inl None =>
+    let data := chunk in
+    auto_th_gen_spool thr ge baseline_samples data
+  | inl (Some data) =>
+    match concat2 data chunk with
+    | None => None
+    | Some data =>
+      auto_th_gen_spool thr ge baseline_samples data
+    end
+  | inr auto_th =>
+    auto_th_gen_body thr ge baseline_samples auto_th chunk
+  end.
+
+(* ---------------- self-test instances ---------------- *)
+Definition gcheck_discard (d : Z) h s0 sizes got : bool :=
+  eqb_outs (outs_of (run (discard_gen_step d) (@discard_gen_init Z d) (inputs h s0 sizes))) got.
+Definition gcheck_blocked (bs : Z) h s0 sizes got : bool :=
+  eqb_outs (outs_of (run (blocked_gen_step bs) (blocked_gen_init bs) (inputs h s0 sizes))) got.
+Definition gcheck_downsample (q : Z) h s0 sizes got : bool :=
+  eqb_outs (outs_of (run (downsample_gen_step q) (downsample_gen_init q) (inputs h s0 sizes))) got.
+Definition gcheck_derivative h s0 sizes got : bool :=
+  eqb_outs (outs_of (run (derivative_gen_step ssub (-1)) None (inputs h s0 sizes))) got.
+Definition gcheck_decimate (q : Z) h s0 sizes got : bool :=
+  eqb_outs (outs_of (run (decimate_gen_step sfilt 0 q) None (inputs h s0 sizes))) got.
+Definition gcheck_rms (n : Z) h s0 sizes got : bool :=
+  eqb_outs (outs_of (run (rms_gen_step (sagg n) (fun s => s / n) Z.add n) None (inputs h s0 sizes))) got.
+Definition gcheck_rms_x (n : Z) h s0 sizes got : bool :=
+  eqb_outs (outs_of (run (rms_gen_step (sagg n) (fun s => s) (fun t k => t + n * k) n) None (inputs h s0 sizes))) got.
+Definition gcheck_event_rate (bsz stp : Z) (cs : list events) (got : option (list rblk)) : bool :=
+  eqb_option (eqb_list eqb_rblk) (outs_of (run (event_rate_gen_step bsz stp) None cs)) got.
+Definition gcheck_transform h s0 sizes got : bool :=
+  eqb_outs (outs_of (run (transform_gen_step (fun x : Z => x)) (transform_gen_init (fun x : Z => x)) (inputs h s0 sizes))) got.
+Definition gcheck_mc_reference h s0 sizes got : bool :=
+  eqb_outs (outs_of (run (mc_reference_gen_step (fun x : Z => x)) (mc_reference_gen_init (fun x : Z => x)) (inputs h s0 sizes))) got.
+Definition gcheck_iirfilter h s0 sizes got : bool :=
+  eqb_outs (outs_of (run (iirfilter_gen_step sfilt sfinit) None (inputs h s0 sizes))) got.
+Definition gcheck_auto_th (Bn : Z) (table : list Z) h s0 sizes got : bool :=
+  eqb_outs (outs_of (run (auto_th_gen_step (sthr Bn) (sge table) Bn) (inl None) (inputs h s0 sizes))) got.
